@@ -217,12 +217,12 @@ def run(ctx):
                     compare(ctx, [dict(a, Next="R1"), dict(b, Next="R2"), dict(c, Next="R3")], default, data, "order")
     # 5. StringMatches patterns over the documented alphabet (quick: small exhaustive; thorough: random longer)
     alpha = ["a", "b", "*", "\\*", "\\\\", ".", "?", "[", "]"]
-    subjects = ["", "a", "ab", "a*b", "a.b", "ba", "a\\b", "a?b", "a[b]", "*"]
+    subjects = ["", "a", "ab", "a*b", "a.b", "ba", "a\\b", "a?b", "a[b]", "*", "\\", "\\\\", "a\\\\b", "\\*"]
     pats = ["".join(p) for n in range(0, 4) for p in itertools.product(alpha, repeat=n)]
     stride = 1 if not ctx.quick else 3
     for k, p in enumerate(pats):
-        if k % stride:
-            continue
+        if k % stride and not ("\\" in p and "*" not in p.replace("\\*", "")):
+            continue        # (patterns with escapes and no wildcard are all kept: the escape must be decoded whether or not there is a wildcard)
         for s in subjects:
             i += 1
             if ctx.mine(i):
